@@ -34,6 +34,7 @@ type CutCase struct {
 	Go         Parsed `json:"go"`
 	ErrHdr     string `json:"err_hdr"`
 	HarnessErr string `json:"harness_err"`
+	Retried    bool   `json:"retried"` // the first attempt ran into the client's time limit (machine under load) and the case was run again
 }
 
 // Coq renders the case as G12.Check12.fcase.
@@ -294,6 +295,13 @@ func (cr *CutRig) Close() {
 	cr.upstream.Close()
 }
 
+func (c *CutCase) timeout() time.Duration {
+	if c.Retried {
+		return 8 * time.Second
+	}
+	return 2500 * time.Millisecond
+}
+
 // Run drives one case.
 func (cr *CutRig) Run(c *CutCase) {
 	reply, headLen := cutReply(c.Framing)
@@ -346,7 +354,7 @@ func (cr *CutRig) Run(c *CutCase) {
 		c.HarnessErr = "client write: " + err.Error()
 		return
 	}
-	co := ReadResponse(conn, false, 2500*time.Millisecond)
+	co := ReadResponse(conn, false, c.timeout())
 	c.Raw, c.RawLen, c.ClientEnd, c.Go = co.Raw, co.RawLen, co.End, co.P
 	c.ErrHdr, _ = co.P.Get("X-Forwarder-Error")
 	if co.End == "timeout" {
@@ -370,6 +378,11 @@ func RunCutCases(cases []CutCase, par int) error {
 			defer wg.Done()
 			defer func() { <-sem }()
 			cr.Run(&cases[i])
+			if cases[i].HarnessErr != "" {
+				// a time limit hit on a loaded machine is not an observation of the proxy: run the case once more, generously
+				cases[i].HarnessErr, cases[i].Retried = "", true
+				cr.Run(&cases[i])
+			}
 		}(i)
 	}
 	wg.Wait()
